@@ -2,7 +2,7 @@
 import json
 from collections import Counter
 
-from .. import common, dast, gen, world as W
+from .. import common, dast, gen, refsem, world as W
 
 PROP = "C23"
 LEVEL = "exploration"
@@ -13,8 +13,8 @@ RULE = ("seeded designs with weighted levels of non-derived factors (crossed, un
         "(copies are distinct solutions); no hidden factor in any output; non-trivial = >=2 solutions and >=1 weighted level; "
         "distinct = (design skeleton)")
 ASSUMPTIONS = ["constraints of the generated designs never target a weighted level itself (a run over different copies has no twin spelling)"]
-BUDGET = {"quick": 45, "thorough": 900}
-RUNS = {"quick": 2500, "thorough": 60000}
+BUDGET = {"quick": 300, "thorough": 900}
+RUNS = {"quick": 800, "thorough": 60000}
 
 
 def expand(ast):
@@ -111,6 +111,11 @@ def run_case(case):
     crossing = set(ast["block"]["crossing"])
     wfactors = sorted(set(fid for fid, _ in copies))
     crossed = [fid in crossing for fid in wfactors]
+
+    def family(sig):
+        # designs in a region with a recorded encoding defect carry that region's tag (common.family_tags)
+        return common.with_family(sig, refsem.elaborate(ast))
+
     with W.SimWorld(case["run_seed"], case["knobs"]) as w:
         b1, _, e1 = common.construct(w, ast)
         b2, _, e2 = common.construct(w, twin)
@@ -135,7 +140,10 @@ def run_case(case):
             return base
         if x1 is not None or x2 is not None:
             if (x1 is None) != (x2 is None):
-                base.update(outcome="violation", signature="C23/synthesis-outcome-differs",
+                x = x1 if x1 is not None else x2
+                sig = "C23/synthesis-outcome-differs/%s-raises/%s@%s" % ("weighted" if x1 is not None else "copies", type(x).__name__,
+                                                                         common.innermost_frame_info(x)[0])
+                base.update(outcome="violation", signature=family(sig),
                             detail="weighted %r, twin %r ; design=%s" % (type(x1).__name__ if x1 else None, type(x2).__name__ if x2 else None, dast.describe(ast)))
                 return base
             base.update(outcome="skip", reason="both-raise")
@@ -158,8 +166,8 @@ def run_case(case):
             only_w = sorted(set(W1) - set(T2))
             only_t = sorted(set(T2) - set(W1))
             base.update(outcome="violation",
-                        signature="C23/solution-sets-differ/%s/%s" % ("crossed" if allc else ("uncrossed" if nonec else "mixed"),
-                                                                       "weighted-more" if only_w and not only_t else ("copies-more" if only_t and not only_w else "both")),
+                        signature=family("C23/solution-sets-differ/%s/%s" % ("crossed" if allc else ("uncrossed" if nonec else "mixed"),
+                                                                              "weighted-more" if only_w and not only_t else ("copies-more" if only_t and not only_w else "both"))),
                         detail="weighted design %d distinct, twin %d distinct after renaming; only weighted: %s ; only twin: %s ; design=%s" % (
                             len(W1), len(T2), json.dumps(dict(only_w[0]))[:250] if only_w else None, json.dumps(dict(only_t[0]))[:250] if only_t else None, dast.describe(ast)))
             return base
@@ -170,7 +178,7 @@ def run_case(case):
             return base
         if nonec and W1 != T2:
             k0 = [k for k in W1 if W1[k] != T2[k]][0]
-            base.update(outcome="violation", signature="C23/uncrossed-weight-multiplicity",
+            base.update(outcome="violation", signature=family("C23/uncrossed-weight-multiplicity"),
                         detail="%s: weighted design returns it %d times, copy-expanded twin %d times ; design=%s" % (json.dumps(dict(k0))[:250], W1[k0], T2[k0], dast.describe(ast)))
             return base
         base["outcome"] = "ok"
